@@ -15,7 +15,7 @@ import os
 import re
 
 from vlib import core, sx
-from . import text_common as tc, text_gen22
+from . import text_common as tc, text_gen22, text_core22
 
 META = {
     "id": "C22", "level": "proof",
@@ -30,7 +30,7 @@ META = {
     "quick_s": 60, "thorough_s": 600,
 }
 
-THEOREMS = []   # filled in below once Props/C22.v exists
+THEOREMS = ["parse_print_partial", "print_idempotent_partial", "parse_print_ast", "resolve_unresolve"]
 
 
 def classify_known(text):
@@ -146,12 +146,58 @@ def judge(ctx, fam, feature, text, r):
     return "ok", ""
 
 
+def core_fragment(ctx, n):
+    """Core fragment: tokens of the Coq printer == tokens of the real writer; the real lowering of
+    the source == the model's program (dump); Coq parse (print p) == Some p by evaluation."""
+    rng = ctx.rng
+    g = text_core22.Gen(rng)
+    progs = [g.program() for _ in range(n)]
+    srcs = [text_core22.Src(p).render() for p in progs]
+    outs = core.run_harness("text", [sx.to_sexp(("TK", tc.S(s))) for s in srcs], args=["tokens"], timeout=300)
+    pairs, idx, problems = [], [], []
+    for i, (p, s, o) in enumerate(zip(progs, srcs, outs)):
+        try:
+            r = sx.parse_sexp(o)
+        except (ValueError, TypeError):
+            r = ("Garbled", o)
+        if sx.head(r) != "TK":
+            problems.append((i, "real writer/lowering failed on a core-fragment program: %s" % str(r)[:300]))
+            continue
+        toks = [tc.unpct(t) for t in r[1]]
+        names = {text_core22.item_name(it[1]): it[1] for it in p if it[0] != "IImpl"}
+        terms = [text_core22.tok_term(t, names) for t in toks]
+        ctx.count("core", s, nontrivial=True)
+        if None in terms:
+            problems.append((i, "real writer emitted a token outside the fragment's vocabulary: %r" % toks[terms.index(None)]))
+            continue
+        if sx.to_sexp(text_core22.expected_dump(p)) != sx.to_sexp(r[2]):
+            problems.append((i, "lowered source differs from the model program:\n expected %s\n real     %s"
+                             % (sx.to_sexp(text_core22.expected_dump(p))[:800], sx.to_sexp(r[2])[:800])))
+            continue
+        pairs.append((p, terms))
+        idx.append(i)
+    imports = ["Text.Syntax22", "Text.Print", "Text.Parse", "Text.TokEq"]
+    bad = core.coq_mismatches(ctx.work, "print22", imports, fn="print", eqb="toks_eqb", in_ty="program", out_ty="list tok",
+                              pairs=pairs, shard=120)
+    for b in bad:
+        problems.append((idx[b], "tokens of Text.Print.print differ from the tokens of the real write_items"))
+    bad2 = core.coq_mismatches(ctx.work, "parse22", imports, fn="fun p => parse (print p)", eqb="oprogram_eqb", in_ty="program",
+                               out_ty="option program", pairs=[(p, ("Some", p)) for p, _ in pairs], shard=120)
+    for b in bad2:
+        problems.append((idx[b], "Text.Parse.parse (print p) <> Some p by evaluation (generated program not well-formed, or the model is broken)"))
+    ctx.cov["core_compared"] = len(pairs)
+    if pairs:
+        ctx.sample({"family": "core", "source": srcs[idx[0]][:400], "model_tokens": len(pairs[0][1])})
+    return [(srcs[i], why) for i, why in problems]
+
+
 def run(ctx):
     ok, why = (True, "")
     if THEOREMS:
-        ok, why = ctx.proof_stage("Props.C22", THEOREMS)
+        ok, why = ctx.proof_stage("Props.C22", THEOREMS, extra_targets=["Text/TokEq.vo"])
     core.build_harness(bins=["text"])
     rng = ctx.rng
+    core_problems = core_fragment(ctx, ctx.n(400, 4000))
     cases = [("sweep", f, p) for f, p in text_gen22.feature_sweep()]
     # seeds of the pinned display tests, harvested at run time (they must keep passing)
     progs, _ = tc.harvest_seeds()
@@ -202,7 +248,24 @@ def run(ctx):
         text = shrink_program(text, sig)
         ctx.violation({"kind": "roundtrip", "feature": feature, "program": text, "detail": detail, "occurrences": n,
                        "how": "text roundtrip: program_ir -> write_items -> program_ir -> dump comparison -> write_items"})
-    if not ok and not first_violation:
+    # model and implementation disagree on the core fragment: evaluate the property itself on the
+    # implementation for those programs
+    if core_problems:
+        srcs = [s for s, _ in core_problems[:50]]
+        rs = run_rt(srcs)
+        hit = False
+        for (src, why_), r in zip(core_problems, rs):
+            st, det = judge(ctx, "core", "core-fragment", src, r)
+            if st == "violation" and not any(ctx.match_known(k) for k in classify_known(src)):
+                hit = True
+                ctx.violation({"kind": "roundtrip", "feature": "core-fragment", "program": src, "detail": det, "model_disagreement": why_})
+                break
+        if not hit and not first_violation:
+            ctx.violation({"kind": "model-mismatch", "count": len(core_problems), "program": core_problems[0][0], "what": core_problems[0][1],
+                           "broken": "correspondence `Text.Print.print p == tokens of chalk_solve::display::write_items` / `lowered source == p` "
+                                     "(theorems parse_print_partial/print_idempotent_partial are about a model that no longer matches the code); "
+                                     "the real round trip itself holds on these programs"}, no_input=True)
+    if not ok and not first_violation and not core_problems:
         ctx.violation({"kind": "proof", "broken": why, "theorems": THEOREMS}, no_input=True)
 
 
